@@ -16,6 +16,11 @@ var keyPool = []string{"name", "name", "user", "user", "id", "id", "a", "b", "a"
 	// the same names in another letter case: JSON member names are case sensitive, these are DIFFERENT paths
 	"Name", "NAME", "User", "USER", "ID", "Id", "A", "B", "Body", "Items", "sku", "SKU", "É", "X"}
 
+// names that need escaping and contain characters Go's strconv.Quote writes in non-JSON syntax (former
+// finding F16c): ESC, NUL, BEL+quote, VT, DEL+backslash, zero-width space+quote, a non-printable astral code
+// point+quote, CR BS FF.  Used for 3 % of the fields.
+var ctlKeys = []string{"k\x1b", "\x00", "bell\x07\"", "v\x0bt", "del\x7f\\", "zw\u200b\"", "tag\U000E0001\"", "cr\r\b\f"}
+
 var strPool = []string{"top-secret", "bob", "", "true", "null", "10.00", "Ünï", "名", "a b", "line\nbreak", "tab\there",
 	"q\"uote", "sl/ash", "back\\", "12345", "x"}
 
@@ -170,6 +175,8 @@ func (g *gctx) val(depth int, cursor string, dupOK bool) *jv {
 		k := prng.Pick(r, keyPool)
 		if g.plain {
 			k = prng.Pick(r, plainKeys)
+		} else if r.Chance(3) {
+			k = prng.Pick(r, ctlKeys)
 		}
 		if len(o.keys) > 0 && r.Chance(20) {
 			// a sibling whose name differs from an existing one only in letter case
